@@ -68,11 +68,15 @@ Proof.
     intro H; inversion H; reflexivity.
 Qed.
 
+Lemma key_create_eq : key_create = (t_create, []). Proof. reflexivity. Qed.
+Lemma key_power_levels_eq : key_power_levels = (t_power_levels, []). Proof. reflexivity. Qed.
+Lemma key_join_rules_eq : key_join_rules = (t_join_rules, []). Proof. reflexivity. Qed.
+
 Section Proofs.
   Variable sig_of : json -> bytes -> bytes -> bytes -> bool.
   Variable f : ver_flags.
 
-  Notation fresh := (fresh_view matches7 Abs.ev_sender (load_create7 f) (load_pl7 f) load_jr7).
+  Notation fresh := (fresh_view matches7 Abs.ev_sender _ _ _ (load_create7 f) (load_pl7 f) load_jr7).
 
   (* what a new context shows a check = the cache-borne fields of C07's abs *)
   Lemma fresh_view_is_abs p e :
@@ -83,15 +87,22 @@ Section Proofs.
     (match v_pl v with Some q => q | None => pl_zero end) = ai_pl r /\
     (match v_jr v with Some j => j | None => JrOther end) = ai_join_rule r.
   Proof.
-    simpl.
-    unfold fresh_view, fresh_pl, fresh_create, fresh_jr, load_create7, load_pl7, load_jr7. simpl.
-    rewrite !p_find_is_find_auth.
-    rewrite <- create_of_slot, <- join_rule_of_slot.
     set (auths := p_auths p).
+    assert (FC : option_map snd (p_find matches7 p key_create) = find_auth t_create [] auths)
+      by (rewrite key_create_eq; apply p_find_is_find_auth).
+    assert (FP : option_map snd (p_find matches7 p key_power_levels) = find_auth t_power_levels [] auths)
+      by (rewrite key_power_levels_eq; apply p_find_is_find_auth).
+    assert (FJ : option_map snd (p_find matches7 p key_join_rules) = find_auth t_join_rules [] auths)
+      by (rewrite key_join_rules_eq; apply p_find_is_find_auth).
+    unfold fresh_view, fresh_pl, fresh_create, fresh_jr, load_create7, load_pl7, load_jr7.
+    cbv zeta. rewrite FC, FP, FJ.
+    rewrite <- create_of_slot, <- join_rule_of_slot.
+    cbn [v_create v_pl_ev v_pl v_jr fst snd].
+    unfold abs. cbv zeta. cbn [ai_create ai_pl_present ai_pl ai_join_rule].
     destruct (create_of f auths) as [c|] eqn:C; simpl.
-    - destruct (find_auth t_create [] auths) as [ce|] eqn:FC.
-      2:{ unfold create_of in C. rewrite FC in C. discriminate. }
-      simpl. rewrite (create_of_sender f auths c ce FC C).
+    - destruct (find_auth t_create [] auths) as [ce|] eqn:FCE.
+      2:{ unfold create_of in C. rewrite FCE in C. discriminate. }
+      simpl. rewrite (create_of_sender f auths c ce FCE C).
       destruct (find_auth t_power_levels [] auths) as [pe|]; simpl.
       + destruct (pl_of_event (vf_int_levels f) pe); simpl; repeat split; reflexivity.
       + repeat split; reflexivity.
